@@ -169,19 +169,21 @@ fn in_child(line: &str) -> String {
         let _ = si.write_all(line.as_bytes());
         let _ = si.write_all(b"\n");
     }
+    // drain the child's stdout on a thread: a long answer must not block the child on a full pipe
+    let mut so = ch.stdout.take().unwrap();
+    let reader = std::thread::spawn(move || { let mut out = String::new(); let _ = so.read_to_string(&mut out); out });
     let t0 = Instant::now();
     let lim = Duration::from_millis(limit_ms());
     loop {
         match ch.try_wait() {
             Ok(Some(st)) => {
-                let mut out = String::new();
-                let _ = ch.stdout.take().unwrap().read_to_string(&mut out);
+                let out = reader.join().unwrap_or_default();
                 let l = out.lines().next().unwrap_or("").to_string();
                 if !st.success() || l.is_empty() { return "ABORT".into(); }
                 return l;
             }
             Ok(None) => {
-                if t0.elapsed() > lim { let _ = ch.kill(); let _ = ch.wait(); return "TIMEOUT".into(); }
+                if t0.elapsed() > lim { let _ = ch.kill(); let _ = ch.wait(); let _ = reader.join(); return "TIMEOUT".into(); }
                 std::thread::sleep(Duration::from_millis(2));
             }
             Err(_) => return "ABORT".into(),
